@@ -37,8 +37,13 @@ DIMS = ([(1, 1), (1, 2), (2, 1), (1, 5), (6, 1), (2, 2), (2, 3), (3, 2), (2, 6),
 DENSE_DIMS = [(4, 4), (5, 5), (6, 6), (4, 8), (8, 4), (7, 7), (8, 8), (6, 9), (8, 12), (12, 8), (5, 3), (3, 7)]
 
 
-def gen_machine(rng, dims=None, dense=False):
-    w, h = dims or rng.choice(DENSE_DIMS if dense else DIMS)
+def narrow_dims(rng):
+    n = rng.randint(3, 12)
+    return rng.choice([(1, n), (2, n), (n, 1), (n, 2)])
+
+
+def gen_machine(rng, dims=None, dense=False, narrow=False):
+    w, h = dims or (narrow_dims(rng) if narrow else rng.choice(DENSE_DIMS if dense else DIMS))
     chips = [(x, y) for x in range(w) for y in range(h)]
     topo = rng.choice(["torus", "torus", "mesh", "mesh", "partial"])
     dead_links = set()
@@ -48,8 +53,8 @@ def gen_machine(rng, dims=None, dense=False):
         wl = wrap_links(w, h)
         p = rng.choice([0.05, 0.12, 0.5])
         dead_links |= set(l for l in wl if rng.random() < p)
-    fault = "dense" if dense else rng.choice(["none", "links", "links", "oneway", "chips", "cluster",
-                                              "heavy", "mixed"])
+    fault = "narrow" if narrow else "dense" if dense else rng.choice(
+        ["none", "links", "links", "oneway", "chips", "cluster", "heavy", "mixed"])
     dead_chips = set()
 
     def kill_link(x, y, l, both):
@@ -69,6 +74,17 @@ def gen_machine(rng, dims=None, dense=False):
     if fault in ("chips", "mixed", "heavy") and len(chips) > 1:
         for _ in range(rng.randint(1, max(1, min(4, len(chips) // 4)))):
             dead_chips.add(rng.choice(chips))
+    if fault == "narrow":
+        # 1xN / 2xN machines: dead chips in the middle (the tree has to pass them over a twin link or go round),
+        # one-directional dead links
+        inner = [c for c in chips if 0 < (c[1] if w <= 2 else c[0]) < (h if w <= 2 else w) - 1] or chips
+        for _ in range(rng.randint(0, 3)):
+            dead_chips.add(rng.choice(inner))
+        p = rng.uniform(0.05, 0.25)
+        for (x, y) in chips:
+            for l in range(6):
+                if rng.random() < p:
+                    kill_link(x, y, l, rng.random() < 0.25)
     if fault == "dense":
         # 10-20 % of the directed links dead (half of them in both directions), 0-5 dead chips
         p = rng.uniform(0.10, 0.20)
@@ -121,8 +137,8 @@ def gen_stream(rng, n):
     return [rng.randrange(TWO53) for _ in range(n)], style
 
 
-def gen_case(rng, dims=None, malformed=False, dense=False):
-    machine, topo, fault = gen_machine(rng, dims, dense)
+def gen_case(rng, dims=None, malformed=False, dense=False, narrow=False):
+    machine, topo, fault = gen_machine(rng, dims, dense, narrow)
     w, h = machine["w"], machine["h"]
     dead = set(map(tuple, machine["dead_chips"]))
     live = [(x, y) for x in range(w) for y in range(h) if (x, y) not in dead]
@@ -150,7 +166,7 @@ def gen_case(rng, dims=None, malformed=False, dense=False):
     for _ in range(nnets):
         src_chip = rng.choice(live)
         src = new_vertex(src_chip)
-        fan = (rng.randint(1, 12) if dense else
+        fan = (rng.randint(3, 12) if narrow else rng.randint(1, 12) if dense else
                rng.choice([0, 1, 1, 2, 2, 3, 4, 6, 10, 25, len(live), 2 * len(live)]))
         sinks = []
         for _ in range(fan):
@@ -175,9 +191,13 @@ def gen_case(rng, dims=None, malformed=False, dense=False):
     radius = rng.choice([0, 1, 2, 3, 20, 20])
     ndest = sum(len(n["sinks"]) for n in nets)
     stream, sstyle = gen_stream(rng, 8 * ndest + 8)
+    # the resource under which the cores are allocated: the default sentinel Cores, or a name of the caller's own
+    # (then sometimes with a decoy allocation under Cores that must be ignored)
+    core_res = rng.choice([None, None, "my_cores", "cpu", 7])
     return dict(machine=machine, nets=nets, placements=sorted(placements.items()),
                 allocs=sorted(allocs.items()), cons=cons, radius=radius, stream=stream,
-                kind=kind, topo=topo, fault=fault, sstyle=sstyle)
+                kind=kind, topo=topo, fault=fault, sstyle=sstyle,
+                core_res=core_res, decoy=(core_res is not None and rng.random() < 0.5))
 
 
 def gen_ner_case(rng):
@@ -559,6 +579,8 @@ def run(chk, args):
         chk.count("faults:%s" % c["fault"])
         chk.count("radius:%d" % c["radius"])
         chk.count("stream:%s" % c["sstyle"])
+        chk.count("core_resource:%s" % ("default" if c.get("core_res") is None else
+                                        "custom+decoy" if c.get("decoy") else "custom"))
         chk.count("dims:%s" % ("1xN" if 1 in (c["machine"]["w"], c["machine"]["h"]) else
                                "2xN" if 2 in (c["machine"]["w"], c["machine"]["h"]) else "larger"))
         if o == ["hang"]:
@@ -589,7 +611,8 @@ def run(chk, args):
     else:
         n_route = 2500 if quick else 30000
         n_ner = 800 if quick else 8000
-        cases = [gen_case(rng, malformed=(i % 25 == 24), dense=(i % 3 == 0)) for i in range(n_route)]
+        cases = [gen_case(rng, malformed=(i % 25 == 24), dense=(i % 3 == 0), narrow=(i % 6 == 1))
+                 for i in range(n_route)]
         # the hexagon-scan branch needs more than 3 * (1 + 3r(r+1)) route nodes: large fan-out
         for i in range(20 if quick else 300):
             cases.append(gen_case(rng, dims=rng.choice([(8, 8), (9, 8), (10, 10)])))
@@ -607,7 +630,9 @@ def run(chk, args):
     # about one dense case in a thousand made the code as found attach a chip twice)
     if not args.replay:
         n_dense = 15000 if quick else 150000
-        dense = [gen_case(rng, dense=True) for _ in range(n_dense)]
+        n_narrow = 8000 if quick else 60000
+        dense = ([gen_case(rng, dense=True) for _ in range(n_dense)] +
+                 [gen_case(rng, narrow=True) for _ in range(n_narrow)])
         dchunks = [dense[i:i + 700] for i in range(0, len(dense), 700)]
         for part, outp in zip(dchunks, chk.impl_parallel("impl_c03.py", dchunks, timeout=3000)):
             for c, o in zip(part, outp):
@@ -709,7 +734,10 @@ def run(chk, args):
         "route(): random machines up to 7x7 (plus 8x8..10x10 for the hexagon-scan branch, up to 8x12 in the dense-fault "
         "stream) incl. 1xN and 2xN, torus / mesh / partly wrapped, dead chips, dead links in one or both directions, "
         "clustered faults, every third case dense faults (10-20 % of the directed links dead, 0-5 dead chips) plus a larger "
-        "dense-fault stream judged by the oracle only (15000 cases quick, 150000 thorough); 1-3 nets, "
+        "dense-fault stream judged by the oracle only (15000 cases quick, 150000 thorough) and a narrow-machine stream "
+        "(1xN, 2xN, Nx1, Nx2, N <= 12, dead chips in the middle, mostly one-directional dead links, fan-out 3..12; "
+        "every sixth compared case plus 8000 / 60000 oracle-only); core_resource default or a custom key (with a "
+        "decoy allocation under Cores); 1-3 nets, "
         "fan-out 0..2*chips, sinks on the source chip, duplicated sinks, core allocations / endpoint constraints / "
         "neither, radius in {0,1,2,3,20}, scripted random stream (random / all-zero / all-max / few values / edge "
         "values); every 25th case has a sink on a dead chip (not judged). ner_net alone on fault-free meshes and tori "
